@@ -10,10 +10,6 @@ namespace Torf.Lists
 /-- a URL as it may sit in the metainfo: valid and a fixed point of the coercion -/
 def Good (isUrl : String → Bool) (u : String) : Prop := isUrl u = true ∧ spaceToPlus u = u
 
-/-- recorded assumption about `utils.is_url` (checked per case by the harness) -/
-def UrlAssumption (isUrl : String → Bool) : Prop :=
-  ∀ u, isUrl u = true → isUrl (spaceToPlus u) = true
-
 /-- items of a `URLs` object: no duplicates, all good, none of them known elsewhere -/
 def UOK (isUrl : String → Bool) (known items : List String) : Prop :=
   items.Nodup ∧ (∀ u ∈ items, Good isUrl u) ∧ (∀ u ∈ items, u ∉ known)
@@ -32,7 +28,7 @@ theorem spaceToPlus_idem (u : String) : spaceToPlus (spaceToPlus u) = spaceToPlu
   split <;> simp_all
 
 theorem coerce_ok_iff {u c : String} :
-    coerce isUrl u = .ok c ↔ (isUrl u = true ∧ c = spaceToPlus u) := by
+    coerce isUrl u = .ok c ↔ (accepts isUrl u = true ∧ c = spaceToPlus u) := by
   unfold coerce
   split
   · constructor
@@ -42,22 +38,36 @@ theorem coerce_ok_iff {u c : String} :
     · intro h; cases h
     · rintro ⟨h, _⟩; contradiction
 
-theorem coerce_ok_good (h : UrlAssumption isUrl) {u c : String} (hc : coerce isUrl u = .ok c) :
+theorem accepts_iff {u : String} :
+    accepts isUrl u = true ↔ (isUrl u = true ∧ isUrl (spaceToPlus u) = true) := by
+  simp [accepts]
+
+/-- a good URL (valid, no space) is accepted -/
+theorem accepts_of_good {u : String} (hg : Good isUrl u) : accepts isUrl u = true := by
+  rw [accepts_iff, hg.2]; exact ⟨hg.1, hg.1⟩
+
+/-- what `URL()` keeps is valid and a fixed point of the coercion — no assumption on `is_url` -/
+theorem coerce_ok_good {u c : String} (hc : coerce isUrl u = .ok c) :
     Good isUrl c := by
   obtain ⟨hu, rfl⟩ := coerce_ok_iff.1 hc
-  exact ⟨h u hu, spaceToPlus_idem u⟩
+  exact ⟨(accepts_iff.1 hu).2, spaceToPlus_idem u⟩
 
 theorem coerce_of_good {u : String} (hg : Good isUrl u) : coerce isUrl u = .ok u :=
-  coerce_ok_iff.2 ⟨hg.1, hg.2.symm⟩
+  coerce_ok_iff.2 ⟨accepts_of_good hg, hg.2.symm⟩
+
+/-- the second coercion of an item (`MonitoredList.replace`: `tuple(map(self._coerce, items))`,
+    then `insert` coerces again) cannot fail and changes nothing -/
+theorem coerce_coerced {u c : String} (hc : coerce isUrl u = .ok c) : coerce isUrl c = .ok c :=
+  coerce_of_good (coerce_ok_good hc)
 
 theorem coerce_error {u : String} {e : Err} (hc : coerce isUrl u = .error e) :
-    e = .url ∧ isUrl u = false := by
+    e = .url ∧ accepts isUrl u = false := by
   unfold coerce at hc
   split at hc
   · cases hc
-  · cases hc; exact ⟨rfl, by simpa using ‹¬ isUrl u = true›⟩
+  · cases hc; exact ⟨rfl, by simpa using ‹¬ accepts isUrl u = true›⟩
 
-theorem coerce_invalid {u : String} (hu : isUrl u = false) : coerce isUrl u = .error .url := by
+theorem coerce_invalid {u : String} (hu : accepts isUrl u = false) : coerce isUrl u = .error .url := by
   simp [coerce, hu]
 
 /-! ### Python list primitives -/
@@ -156,7 +166,7 @@ theorem UOK_splice_singleton {known items : List String} {k : Nat} {c : String}
 
 /-! ### `filterIns` -/
 
-theorem filterIns_ok (h : UrlAssumption isUrl) {known items r : List String} {i : Int}
+theorem filterIns_ok {known items r : List String} {i : Int}
     {u : String} (hk : UOK isUrl known items) (hr : filterIns isUrl known items i u = .ok r) :
     UOK isUrl known r := by
   unfold filterIns at hr
@@ -168,10 +178,10 @@ theorem filterIns_ok (h : UrlAssumption isUrl) {known items r : List String} {i 
     · rename_i hn
       cases hr
       have hn' : c ∉ items ∧ c ∉ known := by simpa [not_or] using hn
-      exact UOK_splice_singleton hk (coerce_ok_good h hc) hn'.1 hn'.2
+      exact UOK_splice_singleton hk (coerce_ok_good hc) hn'.1 hn'.2
 
 theorem filterIns_error {known items : List String} {i : Int} {u : String} {e : Err}
-    (hr : filterIns isUrl known items i u = .error e) : e = .url ∧ isUrl u = false := by
+    (hr : filterIns isUrl known items i u = .error e) : e = .url ∧ accepts isUrl u = false := by
   unfold filterIns at hr
   split at hr
   · rename_i e' hc
@@ -180,7 +190,7 @@ theorem filterIns_error {known items : List String} {i : Int} {u : String} {e : 
   · split at hr <;> cases hr
 
 theorem filterIns_invalid {known items : List String} {i : Int} {u : String}
-    (hu : isUrl u = false) : filterIns isUrl known items i u = .error .url := by
+    (hu : accepts isUrl u = false) : filterIns isUrl known items i u = .error .url := by
   simp [filterIns, coerce_invalid hu]
 
 theorem filterIns_fresh {known items : List String} {u : String} (hg : Good isUrl u)
@@ -190,8 +200,8 @@ theorem filterIns_fresh {known items : List String} {u : String} (hg : Good isUr
 
 /-- an `ok` result of `filterIns` means the argument was a valid URL -/
 theorem filterIns_ok_valid {known items r : List String} {i : Int} {u : String}
-    (hr : filterIns isUrl known items i u = .ok r) : isUrl u = true := by
-  cases hv : isUrl u
+    (hr : filterIns isUrl known items i u = .ok r) : accepts isUrl u = true := by
+  cases hv : accepts isUrl u
   · rw [filterIns_invalid hv] at hr; cases hr
   · rfl
 
@@ -218,7 +228,7 @@ theorem coerceAll_error {us : List String} {e : Err} (hr : coerceAll isUrl us = 
       · rename_i e' hc; cases hr; exact ih hc
       · cases hr
 
-theorem coerceAll_invalid {us : List String} {u : String} (hm : u ∈ us) (hu : isUrl u = false) :
+theorem coerceAll_invalid {us : List String} {u : String} (hm : u ∈ us) (hu : accepts isUrl u = false) :
     coerceAll isUrl us = .error .url := by
   induction us with
   | nil => cases hm
@@ -233,15 +243,15 @@ theorem coerceAll_invalid {us : List String} {u : String} (hm : u ∈ us) (hu : 
       · rw [ih hm]
 
 theorem coerceAll_ok_valid {us cs : List String} (hr : coerceAll isUrl us = .ok cs) :
-    ∀ u ∈ us, isUrl u = true := by
+    ∀ u ∈ us, accepts isUrl u = true := by
   intro u hm
-  cases hv : isUrl u
+  cases hv : accepts isUrl u
   · rw [coerceAll_invalid hm hv] at hr; cases hr
   · rfl
 
 /-! ### `addAll` -/
 
-theorem addAll_ok (h : UrlAssumption isUrl) {known items cs r : List String}
+theorem addAll_ok {known items cs r : List String}
     (hk : UOK isUrl known items) (hr : addAll isUrl known items cs = .ok r) :
     UOK isUrl known r := by
   induction cs generalizing items with
@@ -251,7 +261,7 @@ theorem addAll_ok (h : UrlAssumption isUrl) {known items cs r : List String}
     split at hr
     · cases hr
     · rename_i items' hf
-      exact ih (filterIns_ok h hk hf) hr
+      exact ih (filterIns_ok hk hf) hr
 
 theorem addAll_id {known items cs : List String} (hk : UOK isUrl known (items ++ cs)) :
     addAll isUrl known items cs = .ok (items ++ cs) := by
@@ -280,14 +290,62 @@ theorem addAll_error {known items cs : List String} {e : Err}
     · rename_i e' hf; cases hr; exact (filterIns_error hf).1
     · exact ih hr
 
+/-- the items `replace` has coerced once are all good … -/
+theorem coerceAll_ok_good {us cs : List String} (hr : coerceAll isUrl us = .ok cs) :
+    ∀ c ∈ cs, Good isUrl c := by
+  induction us generalizing cs with
+  | nil => unfold coerceAll at hr; cases hr; simp
+  | cons u us ih =>
+    unfold coerceAll at hr
+    split at hr
+    · cases hr
+    · rename_i c hc
+      split at hr
+      · cases hr
+      · rename_i cs' hcs
+        cases hr
+        intro x hx
+        rcases List.mem_cons.1 hx with rfl | hx
+        · exact coerce_ok_good hc
+        · exact ih hcs x hx
+
+/-- … so adding them with the callback disabled (second coercion in `insert`) cannot raise -/
+theorem addAll_good_ok {known items cs : List String} (hg : ∀ c ∈ cs, Good isUrl c) :
+    ∃ r, addAll isUrl known items cs = .ok r := by
+  induction cs generalizing items with
+  | nil => exact ⟨items, by simp [addAll]⟩
+  | cons c cs ih =>
+    unfold addAll
+    have hc : coerce isUrl c = .ok c := coerce_of_good (hg c (by simp))
+    have hg' : ∀ x ∈ cs, Good isUrl x := fun x hx => hg x (by simp [hx])
+    have hf : ∃ items', filterIns isUrl known items items.length c = .ok items' := by
+      simp only [filterIns, hc]
+      split
+      · exact ⟨_, rfl⟩
+      · exact ⟨_, rfl⟩
+    obtain ⟨items', hf⟩ := hf
+    rw [hf]
+    exact ih hg'
+
+/-- `MonitoredList.replace` on a URL list raises only BEFORE the list is cleared (while the
+    items are coerced for the first time): it is atomic -/
+theorem urlsReplace_error_before_clear {known us : List String} {e : Err}
+    (hr : urlsReplace isUrl known us = .error e) : coerceAll isUrl us = .error e := by
+  unfold urlsReplace at hr
+  split at hr
+  · rename_i e' hc; cases hr; exact hc
+  · rename_i cs hc
+    obtain ⟨r, hr'⟩ := addAll_good_ok (known := known) (items := []) (coerceAll_ok_good hc)
+    rw [hr'] at hr; cases hr
+
 /-! ### `urlsReplace`, `mkURLs` -/
 
-theorem urlsReplace_ok (h : UrlAssumption isUrl) {known us r : List String}
+theorem urlsReplace_ok {known us r : List String}
     (hr : urlsReplace isUrl known us = .ok r) : UOK isUrl known r := by
   unfold urlsReplace at hr
   split at hr
   · cases hr
-  · exact addAll_ok h (UOK_nil known) hr
+  · exact addAll_ok (UOK_nil known) hr
 
 theorem urlsReplace_id {known us : List String} (hk : UOK isUrl known us) :
     urlsReplace isUrl known us = .ok us := by
@@ -303,24 +361,24 @@ theorem urlsReplace_error {known us : List String} {e : Err}
   · exact addAll_error hr
 
 theorem urlsReplace_invalid {known us : List String} {u : String} (hm : u ∈ us)
-    (hu : isUrl u = false) : urlsReplace isUrl known us = .error .url := by
+    (hu : accepts isUrl u = false) : urlsReplace isUrl known us = .error .url := by
   unfold urlsReplace
   rw [coerceAll_invalid hm hu]
 
 theorem urlsReplace_ok_valid {known us r : List String}
-    (hr : urlsReplace isUrl known us = .ok r) : ∀ u ∈ us, isUrl u = true := by
+    (hr : urlsReplace isUrl known us = .ok r) : ∀ u ∈ us, accepts isUrl u = true := by
   unfold urlsReplace at hr
   split at hr
   · cases hr
   · rename_i cs hc; exact coerceAll_ok_valid hc
 
-theorem mkURLs_ok (h : UrlAssumption isUrl) {known r : List String} {v : TierVal}
+theorem mkURLs_ok {known r : List String} {v : TierVal}
     (hr : mkURLs isUrl known v = .ok r) : UOK isUrl known r := by
   cases v with
   | str s =>
     simp only [mkURLs] at hr
-    split at hr <;> exact urlsReplace_ok h hr
-  | list us => exact urlsReplace_ok h hr
+    split at hr <;> exact urlsReplace_ok hr
+  | list us => exact urlsReplace_ok hr
 
 theorem mkURLs_error {known : List String} {v : TierVal} {e : Err}
     (hr : mkURLs isUrl known v = .error e) : e = .url := by
@@ -337,7 +395,7 @@ theorem mkURLs_list_id {known us : List String} (hk : UOK isUrl known us) :
 
 /-! ### `extendLoop` -/
 
-theorem extendLoop_ok (h : UrlAssumption isUrl) {known items us : List String}
+theorem extendLoop_ok {known items us : List String}
     {last last' : Option (List String)} {out : Outcome}
     (hk : UOK isUrl known items) (hl : ∀ l, last = some l → UOK isUrl known l)
     (hr : extendLoop isUrl known items last us = (last', out)) :
@@ -354,11 +412,11 @@ theorem extendLoop_ok (h : UrlAssumption isUrl) {known items us : List String}
       cases hr
       exact ⟨hl, fun e he => by cases he; exact (filterIns_error hf).1⟩
     · rename_i items' hf
-      have hk' := filterIns_ok h hk hf
+      have hk' := filterIns_ok hk hf
       exact ih hk' (fun l hl' => by cases hl'; exact hk') hr
 
 theorem extendLoop_invalid {known items us : List String} {last : Option (List String)}
-    {u : String} (hm : u ∈ us) (hu : isUrl u = false) :
+    {u : String} (hm : u ∈ us) (hu : accepts isUrl u = false) :
     (extendLoop isUrl known items last us).2 = .error .url := by
   induction us generalizing items last with
   | nil => cases hm
@@ -373,18 +431,18 @@ theorem extendLoop_invalid {known items us : List String} {last : Option (List S
       · exact ih hm
 
 /-- on success the final snapshot is the last callback argument, or nothing was appended -/
-theorem extendLoop_ok_last (h : UrlAssumption isUrl) {known items us : List String}
+theorem extendLoop_ok_last {known items us : List String}
     {last' : Option (List String)} {out : Outcome} (hk : UOK isUrl known items)
     (hr : extendLoop isUrl known items none us = (last', out)) :
     UOK isUrl known (last'.getD items) := by
-  have := (extendLoop_ok h hk (fun l hl => by cases hl) hr).1
+  have := (extendLoop_ok hk (fun l hl => by cases hl) hr).1
   cases last' with
   | none => exact hk
   | some l => exact this l rfl
 
 /-! ### `urlsOp` -/
 
-theorem urlsOp_ok (h : UrlAssumption isUrl) {known items r : List String} {op : UOp}
+theorem urlsOp_ok {known items r : List String} {op : UOp}
     {out : Outcome} (hk : UOK isUrl known items) (hop : op.isSet = false)
     (hr : urlsOp isUrl known items op = (some r, out)) : UOK isUrl known r := by
   have hdel : ∀ k, UOK isUrl known (splice items k (k + 1) []) := fun k =>
@@ -394,18 +452,18 @@ theorem urlsOp_ok (h : UrlAssumption isUrl) {known items r : List String} {op : 
     simp only [urlsOp] at hr
     split at hr
     · cases hr
-    · rename_i r' hf; cases hr; exact filterIns_ok h hk hf
+    · rename_i r' hf; cases hr; exact filterIns_ok hk hf
   | append u =>
     simp only [urlsOp] at hr
     split at hr
     · cases hr
-    · rename_i r' hf; cases hr; exact filterIns_ok h hk hf
+    · rename_i r' hf; cases hr; exact filterIns_ok hk hf
   | extend us =>
     simp only [urlsOp] at hr
-    exact (extendLoop_ok h hk (fun l hl => by cases hl) hr).1 r rfl
+    exact (extendLoop_ok hk (fun l hl => by cases hl) hr).1 r rfl
   | iadd us =>
     simp only [urlsOp] at hr
-    exact (extendLoop_ok h hk (fun l hl => by cases hl) hr).1 r rfl
+    exact (extendLoop_ok hk (fun l hl => by cases hl) hr).1 r rfl
   | delete i =>
     simp only [urlsOp] at hr
     split at hr
@@ -433,7 +491,7 @@ theorem urlsOp_ok (h : UrlAssumption isUrl) {known items r : List String} {op : 
     simp only [urlsOp] at hr
     split at hr
     · cases hr
-    · rename_i r' hf; cases hr; exact urlsReplace_ok h hf
+    · rename_i r' hf; cases hr; exact urlsReplace_ok hf
   | setItem i u => cases hop
   | setSlice a b us => cases hop
 
